@@ -45,6 +45,7 @@ def gen_seqs(rng, k, maxlen, universe, shape):
     return seqs
 
 P_ALL = list(range(1, 33))
+OS_VALUES = [1, 2, 10, 10, 3, 7]
 
 def gen_small_block(rng, out, nsizes_all=True):
     """one small input, every size 0..total, several thread counts, both splittings"""
@@ -56,23 +57,23 @@ def gen_small_block(rng, out, nsizes_all=True):
     for size in range(total + 1):
         for p in (ps if nsizes_all else [rng.choice(ps)]):
             entry = rng.below(4); mwma = rng.below(4)
-            out.append(mk(entry, 1, p, rng.choice([1, 2, 10]), mwma, 0, 1, 2, 1000, size, seqs))
+            out.append(mk(entry, 1, p, rng.choice(OS_VALUES), mwma, 0, 1, 2, 1000, size, seqs))
             if size == total:
                 for os_ in (1, 2, 10):
                     out.append(mk(rng.below(4), 0, p, os_, rng.below(4), 0, 1, 2, 1000, size, seqs))
             else:                                                     # MWMSA_SAMPLING on a proper prefix (served by the exact splitter)
-                out.append(mk(rng.below(4), 0, p, rng.choice([1, 2, 10]), rng.below(4), 0, 1, 2, 1000, size, seqs))
+                out.append(mk(rng.below(4), 0, p, rng.choice(OS_VALUES), rng.below(4), 0, 1, 2, 1000, size, seqs))
 
 def gen_random(rng, out, big):
     k = rng.range(1, 9 if big else 6)
     maxlen = rng.choice([20, 60, 200] if big else [8, 15, 30])
-    seqs = gen_seqs(rng, k, maxlen, rng.choice([2, 4, 16, 1000]), rng.below(4))
+    seqs = gen_seqs(rng, k, maxlen, rng.choice([1, 2, 4, 16, 1000]), rng.below(4))
     total = sum(map(len, seqs))
     p = rng.choice(P_ALL)
     split = rng.below(2)
     if split == 0 and rng.chance(1, 2): size = total
     else: size = rng.choice([total, total, rng.range(0, total), max(0, total - 1), min(total, p - 1), min(total, p), min(total, p + 1)])
-    out.append(mk(rng.below(4), split, p, rng.choice([1, 2, 10]), rng.below(4), 0, 1, 2, 1000, size, seqs))
+    out.append(mk(rng.below(4), split, p, rng.choice(OS_VALUES), rng.below(4), 0, 1, 2, 1000, size, seqs))
 
 def gen_switch(rng, out):
     k = rng.range(1, 5)
@@ -84,7 +85,7 @@ def gen_switch(rng, out):
     fseq = 1 if rng.chance(1, 6) else 0
     fpar = 1 if rng.chance(1, 6) else 0
     split = rng.below(2)
-    out.append(mk(rng.below(4), split, p, rng.choice([1, 2, 10]), rng.below(4), fseq, fpar, mink, minn, size, seqs))
+    out.append(mk(rng.below(4), split, p, rng.choice(OS_VALUES), rng.below(4), fseq, fpar, mink, minn, size, seqs))
 
 SAN_FLAGS = ["-std=c++17", "-O1", "-g1", "-fsanitize=address,undefined", "-fno-sanitize-recover=all", "-fno-omit-frame-pointer"]
 # two binaries of the same harness, built concurrently: 12-byte element (copy-based loser trees) and -DC07_FAT
@@ -108,12 +109,13 @@ PROFILE_NAMES = {0: "vector<pair>::iterator / Elem* / logging output / key-only 
                  2: "deque<pair>::iterator / deque<Elem>::iterator / vector<Elem>::iterator output / key-only greater on descending inputs",
                  3: "stateful non-default-constructible counting comparator",
                  4: "comp, mwma, mwmsa and num_threads defaulted",
-                 5: "num_threads defaulted"}
+                 5: "num_threads defaulted",
+                 6: "parallel_multiway_merge_base<Stable> called directly"}
 
 def assign_profile(rng, line):
     """choose the API profile of a generated case (harness/C07/pmwm_harness.cpp): field mwma = profile*10 + MWMA"""
     r = rng.below(100)
-    prof = 0 if r < 40 else 1 + (r - 40) // 12
+    prof = 0 if r < 40 else 1 + (r - 40) // 10        # 1..6
     layout = rng.below(2)              # memory regime of the inputs (non-sentinel entry points)
     kind = 1 if rng.chance(1, 4) else 0   # 1 = fat element binary
     t = line.split()
@@ -123,8 +125,20 @@ def assign_profile(rng, line):
         t[1] = "1"; t[2] = str(HW); t[4] = "1"
     elif prof == 5:
         t[2] = str(HW)
+    elif prof == 6:                    # direct call of parallel_multiway_merge_base<Stable>: no switches, no sentinel variant
+        t[0] = str(int(t[0]) % 2); t[5] = "0"; t[6] = "1"
     t[4] = str(int(t[4]) + prof * 10)
     return " ".join(t)
+
+def gen_default_switches(rng, out, n_cases):
+    """the shipped defaults of the switches (force flags off, minimal_k = 2, minimal_n = 1000): size just below / at /
+    above 1000, k = 1 / 2 / 3, num_threads 1 / 2 / 4 -> both sides of the default heuristic"""
+    for _ in range(n_cases):
+        k = rng.choice([1, 2, 2, 3])
+        seqs = [sorted(rng.below(rng.choice([5, 2000])) for _ in range(rng.range(1001 // k + 1, 1300 // k + 40))) for _ in range(k)]
+        total = sum(map(len, seqs))
+        size = min(total, rng.choice([999, 1000, 1001, total]))
+        out.append(mk(rng.below(4), rng.below(2), rng.choice([1, 2, 4]), rng.choice(OS_VALUES), rng.below(4), 0, 0, 2, 1000, size, seqs))
 
 def gen_algo_sweep(rng, out):
     """every MultiwayMergeAlgorithm value x k = 2..9 x non-sentinel entry points x both memory regimes x both element
@@ -139,7 +153,7 @@ def gen_algo_sweep(rng, out):
                         p = rng.choice([1, 1, 2, 3, 5])
                         size = total if rng.chance(2, 3) else rng.range(total // 2, total)
                         prof = rng.choice([0, 0, 1, 3])
-                        out.append(mk(entry, rng.below(2), p, rng.choice([1, 2, 10]), kind * 1000 + layout * 100 + prof * 10 + mwma,
+                        out.append(mk(entry, rng.below(2), p, rng.choice(OS_VALUES), kind * 1000 + layout * 100 + prof * 10 + mwma,
                                       0, 1, 2, 1000, size, seqs))
 
 def gen_ms(rng, out, n_cases):
@@ -148,7 +162,7 @@ def gen_ms(rng, out, n_cases):
         n = rng.choice([0, 1, 2, 7, rng.range(3, 60), rng.range(60, 400), rng.range(100, 700)])
         keys = [rng.below(rng.choice([3, 50, 1000])) for _ in range(n)]
         out.append((1 if rng.chance(1, 3) else 0,
-                    "ms %d %d %d %d %d %s" % (rng.below(2), rng.choice([1, 2, 3, 4, 5, 5, 6, 7, 7, 8, 9, 13]), rng.below(2), rng.choice([1, 2, 10]), n,
+                    "ms %d %d %d %d %d %s" % (rng.below(2), rng.choice([1, 2, 3, 4, 5, 5, 6, 7, 7, 8, 9, 13]), rng.below(2), rng.choice(OS_VALUES), n,
                                               " ".join(map(str, keys)))))
 
 corpus = [l.strip() for l in open(os.path.join(verif.VERIF, "corpus", "C07", "cases.txt")) if l.strip() and not l.startswith("#")]
@@ -156,13 +170,14 @@ cases = list(corpus)
 if ck.replay:
     cases = [json.load(open(ck.replay))["case"]]
 else:
-    nblocks, nrand, nbig, nsw = (260, 6000, 1500, 4000) if ck.thorough() else (64, 2500, 280, 2000)
+    nblocks, nrand, nbig, nsw = (260, 6000, 1500, 4000) if ck.thorough() else (60, 2300, 260, 1900)
     for _ in range(nblocks): gen_small_block(rng, cases)
     for _ in range(nrand): gen_random(rng, cases, False)
     for _ in range(nbig): gen_random(rng, cases, True)
     for _ in range(nsw): gen_switch(rng, cases)
     cases = cases[:len(corpus)] + [assign_profile(rng, l) for l in cases[len(corpus):]]
     gen_algo_sweep(rng, cases)
+    gen_default_switches(rng, cases, 40 if ck.thorough() else 5)
 ms_cases = []
 if not ck.replay:
     gen_ms(rng, ms_cases, 600 if ck.thorough() else 160)
@@ -175,7 +190,7 @@ API_SURFACE = [
  {"api": "tlx::parallel_multiway_merge / stable_parallel_multiway_merge / parallel_multiway_merge_sentinels / stable_parallel_multiway_merge_sentinels (seqs_begin, seqs_end, target, size, comp, mwma, mwmsa, num_threads), all arguments explicit", "called": True, "by": "profiles 0-3, every case draws the entry point at random"},
  {"api": "the same four with num_threads defaulted (std::thread::hardware_concurrency(), read from the harness with --hw and written into the case so that the model uses the same p)", "called": True, "by": "profile 5"},
  {"api": "the same four with comp, mwma, mwmsa and num_threads defaulted (std::less<value_type> via operator<, MWMA_ALGORITHM_DEFAULT, MWMSA_DEFAULT = MWMSA_EXACT)", "called": True, "by": "profile 4"},
- {"api": "tlx::parallel_multiway_merge_base<Stable> (called directly)", "called": False, "by": "reached only through the four front ends (which instantiate both Stable values); a direct call adds no code path: the front ends forward all arguments unchanged"},
+ {"api": "tlx::parallel_multiway_merge_base<Stable> called directly, both Stable values (no switches, k = 0 allowed)", "called": True, "by": "profile 6"},
  {"api": "multiway_merge_sampling_splitting<Stable> / multiway_merge_exact_splitting<Stable> / multiway_merge_detail::equally_split", "called": True, "by": "through mwmsa = MWMSA_SAMPLING (size = total) / MWMSA_EXACT and MWMSA_SAMPLING with size < total; equally_split with size < p, size = 0, size = p-1, p, p+1; not called directly (their chunks argument is the base routine's private vector)"},
  {"api": "MultiwayMergeSplittingAlgorithm: MWMSA_SAMPLING | MWMSA_EXACT | MWMSA_DEFAULT (MWMSA_LAST is an enum end marker)", "called": True, "by": "field split = 0 | 1 | profile 4"},
  {"api": "MultiwayMergeAlgorithm passed through to the per-thread merges: MWMA_LOSER_TREE | _COMBINED | _SENTINEL | MWMA_BUBBLE | default", "called": True, "by": "field mwma drawn at random in every case | profile 4"},
@@ -184,7 +199,8 @@ API_SURFACE = [
  {"api": "global switch parallel_multiway_merge_force_parallel", "called": True, "by": "all forced-parallel cases; gen_switch with it off"},
  {"api": "global parallel_multiway_merge_minimal_k: k-1, k, k+1 around the number of sequences", "called": True, "by": "gen_switch"},
  {"api": "global parallel_multiway_merge_minimal_n: size-1, size, size+1", "called": True, "by": "gen_switch"},
- {"api": "global parallel_multiway_merge_oversampling: 1, 2, 10 (default); 0 is outside the domain (samples[0] of an empty vector)", "called": True, "by": "field os in every case"},
+ {"api": "global parallel_multiway_merge_oversampling: 1, 2, 3, 7, 10 (default); 0 is not generated: with sampling splitting and >= 2 threads it reads samples[0] of an empty vector (null dereference, docs/audit/C07.md)", "called": True, "by": "field os in every case"},
+ {"api": "the shipped defaults of the switches (force flags off, minimal_k = 2, minimal_n = 1000) with size 999 / 1000 / 1001 / total and k = 1,2,3, num_threads 1,2,4", "called": True, "by": "gen_default_switches"},
  {"api": "sequence-of-pairs iterator: std::vector<pair>::iterator | pair* | std::deque<pair>::iterator (must be mutable: .first is advanced in place)", "called": True, "by": "profiles 0,3,4,5 | 1 | 2"},
  {"api": "element iterators: raw pointer | std::vector<T>::iterator | std::deque<T>::iterator", "called": True, "by": "profiles 0,3,4,5 | 1 | 2"},
  {"api": "output iterator (must be random access: target + target_position): logging random-access iterator class with proxy reference | T* | std::vector<T>::iterator", "called": True, "by": "profiles 0,3,4,5 | 1 | 2 (plain outputs: guard zones of 8 elements on both sides, windows not observable)"},
